@@ -164,8 +164,32 @@ func (in *instrumenter) rewriteList(list []ast.Stmt) []ast.Stmt {
 
 // rewriteStmt descends into nested statement lists and function literals.
 func (in *instrumenter) rewriteStmt(s ast.Stmt) {
+	clauses := func(body *ast.BlockStmt) {
+		// the body of a switch / select holds clauses, not statements: gates go
+		// inside the clauses, never between them
+		if body == nil {
+			return
+		}
+		for _, cl := range body.List {
+			switch c := cl.(type) {
+			case *ast.CaseClause:
+				c.Body = in.rewriteList(c.Body)
+			case *ast.CommClause:
+				c.Body = in.rewriteList(c.Body)
+			}
+		}
+	}
 	ast.Inspect(s, func(n ast.Node) bool {
 		switch x := n.(type) {
+		case *ast.SwitchStmt:
+			clauses(x.Body)
+			return false
+		case *ast.TypeSwitchStmt:
+			clauses(x.Body)
+			return false
+		case *ast.SelectStmt:
+			clauses(x.Body)
+			return false
 		case *ast.BlockStmt:
 			x.List = in.rewriteList(x.List)
 			return false
